@@ -249,29 +249,44 @@ def concrete_check(nat, line, args, pos):
 def render(styles, args, pos):
     return 'prog' + ''.join(' ' + lg.render_arg_concrete(s, a) for s, a in zip(styles, args)) + lg.POSITIONS[pos]
 
+HARD = ('hang', 'crash')
+def xfiles(args):
+    """adversarial file system: one entry matching each argument read as a glob pattern"""
+    return [''.join(('xyzw'[i % 4]) if ch in '*?' else ch for ch in x) for i, x in enumerate(args) if any(ch in '*?' for ch in x)]
 def minimize(ne, styles, args, pos):
-    """replace every character that is not needed for the violation by 'a' (delta debugging on the native build)"""
+    """replace every character that is not needed for the violation by 'a' (delta debugging on the native build, in a
+    fresh directory holding f1, f2 and, per candidate, one file matching each argument read as a glob pattern).
+    `hang` and `crash` are kept as failure modes of their own; all other labels count as "wrong plan"."""
     args = [list(a) for a in args]
+    cache = {}
     def bad(av):
-        ln = render(styles, [''.join(x) for x in av], pos)
-        k = (ln, pos)
-        if k not in ne.cache:
-            # adversarial file system: a file that matches each argument read as a glob pattern
-            make_files(ne.dir, [''.join('x' if ch in '*?' else ch for ch in x) for x in av if any(ch in '*?' for ch in x)])
-            ne.cache[k] = concrete_check(ne.nat, ln, [''.join(x) for x in av], pos)
-        return ne.cache[k]
+        txt = [''.join(x) for x in av]
+        ln = render(styles, txt, pos)
+        if ln not in cache:
+            d = tempfile.mkdtemp(prefix='cicada-verif-min-')
+            try:
+                make_files(d, list(BASE_FILES) + xfiles(txt))
+                ne.nat.call('cd', d)
+                cache[ln] = concrete_check(ne.nat, ln, txt, pos)
+            finally:
+                shutil.rmtree(d, ignore_errors=True)
+        return cache[ln]
     def kind_of(lb):
         if lb is None: return None
-        return 'argv' if lb.startswith(('argv', 'argc')) else lb
-    label = bad(args)
-    if label is None: return None, [''.join(a) for a in args], None
-    k0 = kind_of(label)
-    for i in range(len(args)):
-        for j in range(len(args[i])):
-            if args[i][j] == 'a': continue
-            old = args[i][j]; args[i][j] = 'a'
-            if kind_of(bad(args)) != k0: args[i][j] = old     # keep the failure mode, not just "some failure"
-    label = bad(args)
+        return lb if lb in HARD else 'soft'
+    try:
+        label = bad(args)
+        if label is None: return None, [''.join(a) for a in args], None
+        k0 = kind_of(label)
+        for i in range(len(args)):
+            for j in range(len(args[i])):
+                if args[i][j] == 'a': continue
+                old = args[i][j]; args[i][j] = 'a'
+                if kind_of(bad(args)) != k0: args[i][j] = old
+        label = bad(args)
+    finally:
+        try: ne.nat.call('cd', ne.dir)
+        except Exception: pass
     kind = 'argv' if label.startswith(('argv', 'argc')) else label
     parts = []
     for i, (st, a) in enumerate(zip(styles, args)):
@@ -322,9 +337,6 @@ def run_instance(prog, inst, tier, seed, deadline):
                     key, margs, nlabel = shape_cache[shape]
                 else:
                     key, margs, nlabel = minimize(ne, inst['styles'], args, inst['pos'])
-                    if key is None and files:
-                        ne.touch(files)
-                        key, margs, nlabel = minimize(ne, inst['styles'], args, inst['pos'])
                     if key is not None: shape_cache[shape] = (key, margs, nlabel)
                 line = render(inst['styles'], args, inst['pos'])
                 recs.append(dict(label=label, line=line, args=args, styles=inst['styles'], pos=inst['pos'],
@@ -368,7 +380,7 @@ def binary_replay(styles, args, pos, files=()):
     """run the real binary: `cicada -c <line>` with argv-dumping helpers first on PATH, in a scratch directory"""
     d = tempfile.mkdtemp(prefix='cicada-verif-replay-')
     try:
-        make_files(d, list(BASE_FILES) + list(files))
+        make_files(d, list(BASE_FILES) + xfiles(args) + list(files))
         base = set(os.listdir(d))
         out = os.path.join(d, '.argv.jsonl')
         line = render(styles, args, pos)
